@@ -17,7 +17,7 @@ def main() -> int:
     names = sorted({fi.qualname for fi in repo.iter_functions()})
     head = subprocess.run(['git', '-C', repo.root if hasattr(repo, 'root') else '/repo', 'rev-parse', 'HEAD'], capture_output=True, text=True).stdout.strip()
     with open(os.path.join(HERE, 'reference', 'known_functions.json'), 'w') as f:
-        json.dump({'provenance': f'python -m sa.inventory on /repo at {head}', 'functions': names}, f, indent=0)
+        json.dump({'source': f'python -m sa.inventory on /repo at {head} (inventory of the functions that existed when the checks were written; not an oracle)', 'functions': names}, f, indent=0)
     print(len(names), 'functions')
     return 0
 
